@@ -325,6 +325,11 @@ inline void write_stats() {
   for (uint64_t x : c.st.nt) h.write((const char *)&x, 8);
 }
 
+inline void on_segv(int) {
+  const char m[] = "\n[vf] SIGSEGV/SIGBUS: memory access outside the described storage (guard page) or wild pointer\n";
+  (void)!write(2, m, sizeof m - 1);
+  _exit(80);
+}
 inline void on_alarm(int) {
   const char m[] = "\n[vf] WATCHDOG: case did not finish in time (hang)\n";
   (void)!write(2, m, sizeof m - 1);
@@ -589,6 +594,10 @@ inline int main_(int argc, char **argv) {
       c.rest.push_back(a);
   }
   signal(SIGALRM, on_alarm);
+#if !defined(VF_VARIANT_ASAN) && !defined(VF_VARIANT_TSAN)
+  signal(SIGSEGV, on_segv);
+  signal(SIGBUS, on_segv);
+#endif
   PropBase *P = nullptr;
   for (auto *p : props())
     if (p->name == c.prop) P = p;
